@@ -69,8 +69,25 @@ def case(idx, payload):
     want = gen.dump_module(m)
     impl = impl_parse_dump(text)
     model = model_parse_dump(text)
+    # the Lean printer `Spec.lexemes` of the parsed tree vs the lexemes the text was rendered from, and whether the model
+    # parser reads those lexemes back (the instance of theorem C01_module_roundtrip_lexemes for this tree)
+    st, out = fw.worker_driver().call("lexrt", text)
+    lex_eq, rt = None, None
+    if st == "ok":
+        flag, _, toks = out.partition("\x1e")
+        rt = flag == "1"
+        lean = norm_tokens([t[1:] for t in toks.split("\x1f")] if toks else [])
+        mine = norm_tokens([t for _, t in gen.lexemes(m)])
+        lex_eq = lean == mine
     return dict(idx=idx, style=style, text=text, want=want, impl=impl, model=model, stats=stats_of(m),
-                nlex=len(gen.lexemes(m)))
+                nlex=len(gen.lexemes(m)), lex_eq=lex_eq, rt=rt)
+
+
+def norm_tokens(toks):
+    out = []
+    for t in toks:
+        out += ["std", "::", "pair"] if t == "std::pair" else [t]
+    return out
 
 
 def first_diff(a, b):
@@ -94,6 +111,13 @@ def run_stream(ctx, n, cfg_kw=None, tag="valid"):
                 ctx.count("ns_depth_%d" % v)
             else:
                 ctx.count(k, v)
+        if r.get("rt") is not None:
+            ctx.count("roundtrip_theorem_instance_" + ("holds" if r["rt"] else "outside_proved_dialect"))
+            if not r["rt"] and len(ctx.extra.setdefault("outside_proved_dialect_samples", [])) < 3:
+                ctx.extra["outside_proved_dialect_samples"].append(r["text"][:300])
+        if r.get("lex_eq") is False and r["model"] == r["want"]:
+            ctx.disagree("Spec.lexemes (Lean printer) of the tree differs from the lexemes the text was rendered from",
+                         input=r["text"], case=r["idx"], stream=tag)
         if r["impl"] != r["want"]:
             # the property's own oracle fails on the implementation
             ctx.spec_fail("parse tree of the implementation differs from the tree the text was rendered from",
